@@ -221,6 +221,13 @@ void makeLibs(Ctx &ctx, Src &src, bool withMath, bool withResets)
                 // a helper definition of the library's own, referenced by the imported one
                 UnitsSpec h;
                 h.name = "h" + std::to_string(lib.units.size()) + "_" + u.importRef;
+                // In one case out of six the helper carries the name the *importing* model gives to the imported units:
+                // legal (names are per model), and a trap for anything that identifies units by name across models.
+                // Decided by a hash of the names, not by the tape, so that tapes saved before this was added keep their meaning.
+                if (hashStr(u.name + "|" + u.importRef + "|" + b.name + "|" + std::to_string(b.comps.size())) % 6 == 0 && u.name != u.importRef && findUnits(lib, u.name) < 0 && !isStandardUnit(u.name)) {
+                    h.name = u.name;
+                    ctx.counts["lib:helper-units-named-like-the-importing-units"] += 1;
+                }
                 if (src.flip(60)) {
                     UnitSpec hc;
                     hc.ref = src.pick(stdPool);
@@ -2130,6 +2137,160 @@ std::string ifaceRole(const ModelSpec &m, int comp, int other)
     return "as-sibling";
 }
 
+// Which kinds of (legal) equivalences a variable has: through a sibling / parent component (public type), through a child (private type).
+std::string equivalenceKinds(const ModelSpec &m, int ci, int k)
+{
+    bool pub = false, priv = false;
+    for (const auto &cn : m.conns) {
+        for (const auto &mp : cn.maps) {
+            int other = -1;
+            if (cn.c1 == ci && mp.v1 == k) {
+                other = cn.c2;
+            } else if (cn.c2 == ci && mp.v2 == k) {
+                other = cn.c1;
+            }
+            if (other < 0) {
+                continue;
+            }
+            if (m.comps[static_cast<size_t>(other)].parent == ci) {
+                priv = true;
+            } else {
+                pub = true;
+            }
+        }
+    }
+    return pub && priv ? "public+private" : (pub ? "public" : (priv ? "private" : "no"));
+}
+
+// The context a faulted equivalence sits in: a new variable of component ci that, by valid edits only, already has a legal
+// equivalence of the public type (variable of the parent or, for lack of a local parent, of a sibling) and one of the
+// private type (variable of a child); missing partner components are created. The caller decides where in the list of
+// connections (= in which order the equivalences are made through the API) the faulted mapping goes.
+struct ContextVariable
+{
+    int ci = -1, k = -1;
+    std::vector<ConnSpec> pub, priv;
+};
+
+ContextVariable makeContextVariable(ModelSpec &m, int ci, const std::string &tag, const std::string &units, bool withContext)
+{
+    ContextVariable r;
+    r.ci = ci;
+    bool local = m.comps[static_cast<size_t>(ci)].import < 0;
+    {
+        VarSpec v;
+        v.name = "c04_end_" + tag;
+        if (local) {
+            v.units = units;
+            v.iface = "public_and_private";
+        }
+        m.comps[static_cast<size_t>(ci)].vars.push_back(v);
+        r.k = static_cast<int>(m.comps[static_cast<size_t>(ci)].vars.size()) - 1;
+    }
+    if (!withContext || !local) {
+        return r;
+    }
+    auto partnerVariable = [&](int comp, const std::string &name, const std::string &iface) {
+        VarSpec v;
+        v.name = name;
+        v.units = units;
+        v.iface = iface;
+        m.comps[static_cast<size_t>(comp)].vars.push_back(v);
+        return static_cast<int>(m.comps[static_cast<size_t>(comp)].vars.size()) - 1;
+    };
+    auto connect = [&](int comp, int var) {
+        ConnSpec cs;
+        cs.c1 = std::min(comp, ci);
+        cs.c2 = std::max(comp, ci);
+        MapSpec ms;
+        ms.v1 = cs.c1 == ci ? r.k : var;
+        ms.v2 = cs.c1 == ci ? var : r.k;
+        cs.maps.push_back(ms);
+        return cs;
+    };
+    // public type
+    int parent = m.comps[static_cast<size_t>(ci)].parent;
+    if (parent >= 0 && m.comps[static_cast<size_t>(parent)].import < 0) {
+        r.pub.push_back(connect(parent, partnerVariable(parent, "c04_pub_" + tag, "private")));
+    } else {
+        int sibling = -1;
+        for (size_t o = 0; o < m.comps.size() && sibling < 0; ++o) {
+            if (static_cast<int>(o) != ci && m.comps[o].parent == parent && m.comps[o].import < 0) {
+                sibling = static_cast<int>(o);
+            }
+        }
+        if (sibling < 0) {
+            CompSpec c;
+            c.name = "c04_sibling_of_" + m.comps[static_cast<size_t>(ci)].name;
+            c.parent = parent;
+            m.comps.push_back(c);
+            sibling = static_cast<int>(m.comps.size()) - 1;
+        }
+        r.pub.push_back(connect(sibling, partnerVariable(sibling, "c04_pub_" + tag, "public")));
+    }
+    // private type
+    int child = -1;
+    for (size_t o = 0; o < m.comps.size() && child < 0; ++o) {
+        if (m.comps[o].parent == ci && m.comps[o].import < 0) {
+            child = static_cast<int>(o);
+        }
+    }
+    if (child < 0) {
+        CompSpec c;
+        c.name = "c04_child_of_" + m.comps[static_cast<size_t>(ci)].name;
+        c.parent = ci;
+        m.comps.push_back(c);
+        child = static_cast<int>(m.comps.size()) - 1;
+    }
+    r.priv.push_back(connect(child, partnerVariable(child, "c04_priv_" + tag, "public")));
+    return r;
+}
+
+// Joins two new end variables by one faulted mapping; mode: 0 bare variables, 1-3 both ends have legal public- and
+// private-type equivalences and the faulted one is made last / first / between them, 4 only the first end has them (last).
+void joinWithContext(ModelSpec &m, int a, int b, const std::string &unitsA, const std::string &unitsB, unsigned mode, Applied &ap)
+{
+    ContextVariable A = makeContextVariable(m, a, "a", unitsA, mode != 0);
+    ContextVariable B = makeContextVariable(m, b, "b", unitsB, mode >= 1 && mode <= 3);
+    ConnSpec bad;
+    bad.c1 = a;
+    bad.c2 = b;
+    MapSpec ms;
+    ms.v1 = A.k;
+    ms.v2 = B.k;
+    bad.maps.push_back(ms);
+    auto append = [&](const std::vector<ConnSpec> &v) { m.conns.insert(m.conns.end(), v.begin(), v.end()); };
+    bool fullA = !A.pub.empty() && !A.priv.empty();
+    bool fullB = !B.pub.empty() && !B.priv.empty();
+    switch (mode) {
+    case 2:
+        m.conns.insert(m.conns.begin(), bad);
+        append(A.pub);
+        append(B.pub);
+        append(A.priv);
+        append(B.priv);
+        ap.tags.push_back(fullA && fullB ? "fault-context:before-public+private-on-both-endpoints" : "fault-context:first-equivalence-of-its-variables");
+        break;
+    case 3:
+        append(A.pub);
+        append(B.pub);
+        m.conns.push_back(bad);
+        append(A.priv);
+        append(B.priv);
+        ap.tags.push_back(fullA && fullB ? "fault-context:between-public-and-private-on-both-endpoints" : "fault-context:middle-equivalence-of-its-variables");
+        break;
+    default:
+        append(A.pub);
+        append(B.pub);
+        append(A.priv);
+        append(B.priv);
+        m.conns.push_back(bad);
+        ap.tags.push_back(!fullA && !fullB ? "fault-context:bare-endpoints" : (fullA && fullB ? "fault-context:after-public+private-on-both-endpoints" : "fault-context:after-public+private-on-one-endpoint"));
+        break;
+    }
+    ap.nontrivial = true;
+}
+
 void registerConnectionFamilies()
 {
     FAMILY("connection:unreachable-components",
@@ -2162,29 +2323,43 @@ void registerConnectionFamilies()
                        out.push_back(s);
                    }
                }
+               // and, whatever the model looks like: a new child of a local component and a new sibling of that component
+               for (size_t x = 0; x < m.comps.size(); ++x) {
+                   if (m.comps[x].import < 0) {
+                       Site s;
+                       s.a = static_cast<int>(x);
+                       s.b = -1;
+                       s.loc = "new-nephew-and-uncle/" + depthClass(ctx, -1, s.a);
+                       out.push_back(s);
+                   }
+               }
            },
            [](Ctx &ctx, const Site &s, uint64_t aux, Applied &ap) {
                ModelSpec &m = ctx.base;
-               // two new variables (adding variables is valid) and one mapping between them
-               for (int ci : {s.a, s.b}) {
-                   VarSpec v;
-                   v.name = "c04_far";
-                   if (m.comps[static_cast<size_t>(ci)].import < 0) {
-                       v.units = "second";
-                       static const std::vector<std::string> ifs = {"public_and_private", "public", "private", ""};
-                       v.iface = ifs[(aux >> (ci == s.a ? 0 : 4)) % ifs.size()];
-                   }
-                   m.comps[static_cast<size_t>(ci)].vars.push_back(v);
+               int a = s.a, b = s.b;
+               if (b < 0) {
+                   CompSpec nephew, uncle;
+                   nephew.name = "c04_nephew";
+                   nephew.parent = s.a;
+                   uncle.name = "c04_uncle";
+                   uncle.parent = m.comps[static_cast<size_t>(s.a)].parent;
+                   m.comps.push_back(nephew);
+                   a = static_cast<int>(m.comps.size()) - 1;
+                   m.comps.push_back(uncle);
+                   b = static_cast<int>(m.comps.size()) - 1;
                }
-               ConnSpec cs;
-               cs.c1 = s.a;
-               cs.c2 = s.b;
-               MapSpec ms;
-               ms.v1 = static_cast<int>(m.comps[static_cast<size_t>(s.a)].vars.size()) - 1;
-               ms.v2 = static_cast<int>(m.comps[static_cast<size_t>(s.b)].vars.size()) - 1;
-               cs.maps.push_back(ms);
-               m.conns.push_back(cs);
-               ap.desc = "new variables 'c04_far' in components " + q(m.comps[static_cast<size_t>(s.a)].name) + " and " + q(m.comps[static_cast<size_t>(s.b)].name) + " (neither siblings nor parent and child) mapped to each other";
+               unsigned mode = static_cast<unsigned>((aux >> 8) % 5);
+               joinWithContext(m, a, b, "second", "second", mode, ap);
+               if (mode == 0) {
+                   // bare end variables: any declared interface
+                   static const std::vector<std::string> ifs = {"public_and_private", "public", "private", ""};
+                   for (int ci : {a, b}) {
+                       if (m.comps[static_cast<size_t>(ci)].import < 0) {
+                           m.comps[static_cast<size_t>(ci)].vars.back().iface = ifs[(aux >> (ci == a ? 0 : 4)) % ifs.size()];
+                       }
+                   }
+               }
+               ap.desc = "new variables in components " + q(m.comps[static_cast<size_t>(a)].name) + " and " + q(m.comps[static_cast<size_t>(b)].name) + " (neither siblings nor parent and child) mapped to each other; " + ap.tags.back();
                // 3.10 / 2.16: no clause of its own in the catalogue; the map_variables (or its connection) is what is wrong
                ap.accept = {R(MAP_VARIABLES_ELEMENT), R(CONNECTION_ELEMENT)};
                return true;
@@ -2229,6 +2404,7 @@ void registerConnectionFamilies()
                std::string to = lacking[aux % lacking.size()];
                ap.desc = varDesc(ctx, s) + " interface := " + q(to) + " (was " + q(v.iface) + "; its mappings need " + q(need) + ")";
                ap.loc = s.loc + "/needs-" + need + "/has-" + (to.empty() ? "nothing" : to);
+               ap.tags.push_back("fault-context:variable-has-" + equivalenceKinds(m, s.ci, s.k) + "-type-equivalences");
                v.iface = to;
                ap.accept = {R(MAP_VARIABLES_ELEMENT)};
                return true;
@@ -2256,9 +2432,35 @@ void registerConnectionFamilies()
                        }
                    }
                }
+               // a new mapping between new variables of different dimensions in reachable local components
+               for (size_t a = 0; a < m.comps.size(); ++a) {
+                   for (size_t b = a + 1; b < m.comps.size(); ++b) {
+                       const auto &A = m.comps[a];
+                       const auto &B = m.comps[b];
+                       bool reachable = A.parent == B.parent || B.parent == static_cast<int>(a) || A.parent == static_cast<int>(b);
+                       if (reachable && A.import < 0 && B.import < 0) {
+                           Site s;
+                           s.where = 9;
+                           s.a = static_cast<int>(a);
+                           s.b = static_cast<int>(b);
+                           s.ci = s.b;
+                           s.loc = depthClass(ctx, -1, s.b) + "/" + ifaceRole(m, s.b, s.a) + "/new-mapping";
+                           out.push_back(s);
+                       }
+                   }
+               }
            },
            [](Ctx &ctx, const Site &s, uint64_t aux, Applied &ap) {
                ModelSpec &m = ctx.base;
+               if (s.where == 9) {
+                   static const std::vector<std::pair<std::string, std::string>> dims = {{"second", "metre"}, {"volt", "ampere"}, {"dimensionless", "kilogram"}, {"newton", "joule"}};
+                   const auto &d = dims[aux % dims.size()];
+                   joinWithContext(m, s.a, s.b, d.first, d.second, static_cast<unsigned>((aux >> 8) % 5), ap);
+                   ap.desc = "new variables in " + q(m.comps[static_cast<size_t>(s.a)].name) + " (units " + d.first + ") and " + q(m.comps[static_cast<size_t>(s.b)].name) + " (units " + d.second + ") mapped to each other; " + ap.tags.back();
+                   ap.accept = {R(MAP_VARIABLES_ELEMENT)};
+                   return true;
+               }
+               ap.tags.push_back("fault-context:variable-has-" + equivalenceKinds(m, s.ci, s.k) + "-type-equivalences");
                const auto &cn = m.conns[static_cast<size_t>(s.cn)];
                const auto &mp = cn.maps[static_cast<size_t>(s.mp)];
                const std::string otherUnits = s.a == 0 ? m.comps[static_cast<size_t>(cn.c2)].vars[static_cast<size_t>(mp.v2)].units : m.comps[static_cast<size_t>(cn.c1)].vars[static_cast<size_t>(mp.v1)].units;
@@ -2303,19 +2505,52 @@ void registerConnectionFamilies()
                    }
                });
            },
-           [](Ctx &ctx, const Site &s, uint64_t, Applied &ap) {
-               ap.desc = varDesc(ctx, s) + " made equivalent to a variable that is in no component";
+           [](Ctx &ctx, const Site &s0, uint64_t aux, Applied &ap) {
+               ModelSpec &m = ctx.base;
+               Site s = s0;
+               unsigned mode = static_cast<unsigned>((aux >> 8) % 3); // 0: existing variable, orphan last; 1: existing variable, orphan first; 2: new variable with public- and private-type equivalences, orphan last
+               if (mode == 2) {
+                   ContextVariable v = makeContextVariable(m, s.ci, "a", "second", true);
+                   m.conns.insert(m.conns.end(), v.pub.begin(), v.pub.end());
+                   m.conns.insert(m.conns.end(), v.priv.begin(), v.priv.end());
+                   s.k = v.k;
+               }
+               std::string kinds = equivalenceKinds(m, s.ci, s.k);
+               ap.tags.push_back(std::string("fault-context:") + (kinds == "no" ? "only-equivalence-of-its-variable" : (mode == 1 ? "before-" : "after-") + kinds + "-type-equivalences"));
+               ap.desc = varDesc(ctx, s) + " made equivalent to a variable that is in no component; " + ap.tags.back();
                ap.accept = {R(MAP_VARIABLES_VARIABLE1_ATTRIBUTE), R(MAP_VARIABLES_VARIABLE1_ATTRIBUTE_REFERENCE), R(MAP_VARIABLES_VARIABLE2_ATTRIBUTE), R(MAP_VARIABLES_VARIABLE2_ATTRIBUTE_REFERENCE), R(MAP_VARIABLES_ELEMENT)};
                Site site = s;
-               std::string units = ctx.base.comps[static_cast<size_t>(s.ci)].vars[static_cast<size_t>(s.k)].units;
-               ap.post = [site, units](BuiltAll &b) {
+               std::string units = m.comps[static_cast<size_t>(s.ci)].vars[static_cast<size_t>(s.k)].units;
+               ap.post = [site, units, mode](BuiltAll &b) {
                    auto orphan = Variable::create("c04_orphan");
                    if (!units.empty()) {
                        orphan->setUnits(units);
                    }
                    orphan->setInterfaceType("public_and_private");
-                   Variable::addEquivalence(b.base.vars[static_cast<size_t>(site.ci)][static_cast<size_t>(site.k)], orphan);
+                   auto v = b.base.vars[static_cast<size_t>(site.ci)][static_cast<size_t>(site.k)];
                    b.keep.push_back(orphan); // equivalences are weak references
+                   if (mode != 1) {
+                       Variable::addEquivalence(v, orphan);
+                       return;
+                   }
+                   // the orphan becomes the first entry of the variable's list: the others are removed and made again after it
+                   struct Old
+                   {
+                       VariablePtr other;
+                       std::string mappingId, connectionId;
+                   };
+                   std::vector<Old> olds;
+                   for (size_t i = 0; i < v->equivalentVariableCount(); ++i) {
+                       auto o = v->equivalentVariable(i);
+                       olds.push_back({o, Variable::equivalenceMappingId(v, o), Variable::equivalenceConnectionId(v, o)});
+                   }
+                   for (const auto &o : olds) {
+                       Variable::removeEquivalence(v, o.other);
+                   }
+                   Variable::addEquivalence(v, orphan);
+                   for (const auto &o : olds) {
+                       Variable::addEquivalence(v, o.other, o.mappingId, o.connectionId);
+                   }
                };
                return true;
            });
@@ -2993,6 +3228,9 @@ void run(Src &src, Case &c)
     }
     for (const auto &e : ctx.counts) {
         c.count(e.first, e.second);
+    }
+    if (ctx.counts.count("lib:helper-units-named-like-the-importing-units") != 0) {
+        c.cls("base:library-units-named-like-the-importing-units");
     }
 
     // ---- oracle 1: the base model is valid
